@@ -5,7 +5,7 @@
 #include <algorithm>
 using namespace coloquinte;
 
-struct GenOpts { bool multirow = true, polarity = true, turned = true, fixed = true, splitrows = true, nets = false; int maxCells = 12; long long scale = 1; int utilLo = 30, utilHi = 110; };
+struct GenOpts { bool multirow = true, polarity = true, turned = true, fixed = true, splitrows = true, nets = false, mixedSplit = false; int maxCells = 12; long long scale = 1; int utilLo = 30, utilHi = 110; };
 
 struct TCircuit {   // textual circuit
   std::vector<std::array<long long, 5>> rows;                 // minX maxX minY maxY orient
@@ -28,7 +28,11 @@ inline TCircuit genCircuit(SplitMix &g, const GenOpts &o) {
     if (o.splitrows && g.coin(25) && W >= 8 * sc) {
       long long m = g.uni(2, W / sc - 4) * sc, gap = g.uni(0, 2) * sc;
       t.rows.push_back({x0, x0 + m, y, y + rh, ro});
-      if (x0 + m + gap < x0 + W) t.rows.push_back({x0 + m + gap, x0 + W, y, y + rh, ro /* one orientation per y: segments of one y are pieces of one physical row */});
+      if (x0 + m + gap < x0 + W) {
+        int ro2 = ro;   // one orientation per y (segments of one y are pieces of one physical row) unless mixedSplit
+        if (o.mixedSplit && g.coin(60)) { int opts[4] = {0, 1, 4, 5}; ro2 = opts[g.uni(0, 3)]; }
+        t.rows.push_back({x0 + m + gap, x0 + W, y, y + rh, ro2});
+      }
     } else t.rows.push_back({x0, x0 + W, y, y + rh, ro});
     y += rh; if (g.coin(15)) y += rh * g.uni(1, 2);
   }
